@@ -74,6 +74,10 @@ pub static POOLS: &[Pool] = &[
             "v", "f",
         ],
     },
+    // characters printed as an ASCII escape (metacharacters; class-convertible letters/digits) directly
+    // followed by a non-ASCII, non-mark extender: one grapheme cluster that mixes an escape with
+    // other text (F13 and its relatives)
+    Pool { name: "metamod", syms: &["(", ".", "🏻", "\u{ff9e}", "a", "1", "d", "\u{e33}", "ท", "*", "🏽"] },
     // lower-case letters that differ as characters (and in UTF-8 length) but fold together under (?i)
     Pool { name: "fold-s", syms: &["s", "ſ", "a", "b"] },
     Pool { name: "fold-sigma", syms: &["σ", "ς", "α", "β"] },
@@ -364,7 +368,7 @@ pub fn program_strategy_sized(
 }
 
 pub const ALL_POOLS: &[&str] = &[
-    "abc", "cased", "meta", "marks", "clusters", "space", "digits", "sgr", "boundary", "backslash", "repeat", "lookalike",
+    "abc", "cased", "meta", "marks", "clusters", "space", "digits", "sgr", "boundary", "backslash", "repeat", "lookalike", "metamod",
 ];
 
 /// Settings: every boolean independent; thresholds from a small set including large values.
